@@ -255,6 +255,7 @@ func installStr(c *Ctx) {
 	}
 	// clock stub: the zero instant (no property looks at a time stamp taken by the code)
 	in["time.Now"] = func(c *Ctx, a []Value) Value { return zero(c.curCallee.Signature.Results().At(0).Type()) }
+	in["time.runtimeNano"] = func(c *Ctx, a []Value) Value { return BV(0, 64) } // monotonic clock stub (package init of time)
 	in["internal/stringslite.Clone"] = func(c *Ctx, a []Value) Value { return a[0] }
 	in["strings.Clone"] = func(c *Ctx, a []Value) Value { return a[0] }
 	in["fmt.Sprintf"] = func(c *Ctx, a []Value) Value { return c.sprintf(a) }
